@@ -392,3 +392,56 @@ def dump_all_old_blobs(crate, B=2):
     r = P.finish(ex, res, ["first dump failed, the rest still attempted", "a quantum expired in the middle and the scan resumed", "no closed blobs"])
     r.queries, r.solver_s = q, s_
     return r
+
+
+def replace_keeps_old_blob(crate):
+    """C11/C04/C14: Safe::replace_active_blob (blob rotation): the new blob becomes the active blob and the previous active
+    blob — with its in-memory index, the only copy — is always handed to the closed-blob list: nothing that can fail or be
+    cancelled stands between taking it out of the slot and pushing it (no awaited fallible call, no early return)."""
+    res = P.ObResult("replace_keeps_old_blob")
+    fn = crate.method("Safe", "replace_active_blob")
+    res.functions = ["Safe::replace_active_blob (async body)"]
+    res.bounds = "one call, previous active blob present or absent"
+    ex = P.mk_executor(crate, cap=2, loop_bound=4, inline=[], havoc=[r"^(async_lock::)?RwLock::(new|into_inner)$", r"^(async_lock::)?RwLock::<.*>::(new|into_inner)$"])
+    st = State()
+    safe = Obj("storage::core::Safe<K>")
+    ab = Obj("std::option::Option<std::boxed::Box<async_lock::RwLock<blob::core::Blob<K>>>>")
+    act = z3.BitVec("active_present", 64)
+    st.pc.append(z3.Or(act == BV64(0), act == BV64(1)))
+    ab.discr = Sym(act, "isize")
+    old_lock = Obj("async_lock::RwLock<blob::core::Blob<K>>")
+    ab.fields[("Some", 0)] = Ref(st.new_cell(old_lock), (), True, "Box<async_lock::RwLock<blob::core::Blob<K>>>")
+    abi = crate.field_index("Safe", "active_blob")
+    safe.fields[(None, abi)] = ab
+    sc = st.new_cell(safe)
+    newb = Obj("blob::core::Blob<K>"); newb.fields[("ghost", "new")] = Sym(BV64(1), "u64")
+
+    def probe(ex_, st_, name, fargs, out_ty, dty):
+        st_.events.append(("probe", name, None, None))
+        return None
+    ex.await_hook = probe
+    outs = P.drive_async(ex, st, fn, [Ref(sc, (), True, "&mut storage::core::Safe<K>"), newb])
+    res.paths = len(outs)
+
+    def per_path(o, isok, payload):
+        awaits = [e for e in o.events if e[0] == "await" or (e[0] == "probe")]
+        pushes = [e for e in P.events_of(o) if e[0] == "await" and e[1].endswith("HierarchicalFilters::push")]
+        if not P.prove(ex, res, o, isok, "rotation bookkeeping itself does not fail"):
+            return False
+        if not P.prove(ex, res, o, z3.Implies(act == BV64(1), z3.BoolVal(len(pushes) == 1)), "the previous active blob is pushed to the closed list"):
+            return False
+        if not P.prove(ex, res, o, z3.Implies(act == BV64(0), z3.BoolVal(len(pushes) == 0)), "nothing is pushed when there was no active blob"):
+            return False
+        # nothing fallible is awaited before the push (lock acquisition is the only other suspension point)
+        for e in P.events_of(o):
+            if e[0] == "await" and not e[1].endswith("HierarchicalFilters::push") and "lock" not in e[1].lower():
+                res.status = "violated"; res.detail = "awaited call %s while the old blob is in neither place" % e[1][-50:]; return False
+        s2 = o.mem[sc]
+        ab2 = s2.fields[(None, abi)]
+        if not P.prove(ex, res, o, ex.get_discr(o, ab2).t == BV64(1), "afterwards an active blob is set"):
+            return False
+        P.cover(ex, res, o, act == BV64(1), "old blob moved to the closed list")
+        P.cover(ex, res, o, act == BV64(0), "first active blob")
+        return True
+    _check_paths(ex, res, outs, per_path)
+    return P.finish(ex, res, ["old blob moved to the closed list", "first active blob"])
